@@ -55,6 +55,16 @@ def r34_layer_order(ctx):
         shape_ok = bool(body) and isinstance(body[-1], ast.Return) and isinstance(body[-1].value, ast.Name) \
             and body[-1].value.id == var
     if not shape_ok:
+        # a layer lookup combined by `or` / a conditional is a recognisable, wrong shape: a falsy value (0, False)
+        # of the higher layer is treated as absent
+        bad = [n for n in getopt.own_nodes() if isinstance(n, (ast.BoolOp, ast.IfExp))
+               and any(isinstance(c, ast.Call) and isinstance(c.func, ast.Attribute) and c.func.attr == 'get' and _self_attr(c.func.value)
+                       for c in ast.walk(n))]
+        if bad:
+            ctx.bad(R, bad[0], getopt, 'getopt consults the layers default < file < command < forced (later overrides earlier)',
+                    '`%s`: a layer is consulted through a value-dependent fallback, so an option set to 0 or False in the overriding '
+                    'layer is ignored in favour of the lower layer' % unparse(bad[0]))
+            return
         raise AnalysisError('R34: Options.getopt is not a chain of `v = self.<layer>.get(name, v)` steps - shape not recognised')
     ctx.check(chain == LAYERS, R, getopt.node, getopt,
               'getopt consults the layers default < file < command < forced (later overrides earlier)',
